@@ -1,12 +1,15 @@
 """C11 — ill-formed netlists are rejected when they are built or checked.
 Proof:  Properties/C11.v over the hand-written construction model coq/Model/Build.v (invariants over EVERY operation sequence,
-        conflict => raise, earlier item stays, checkIntegrity raises iff a visited port is undriven; refutations = known findings).
-Tie:    operation sequences with faults (directed + random) are executed on the REAL classes (py4hw.Logic subclasses, Wire,
-        addIn/addOut/addInOut, rename/reparent/reparentAndRename) and on the model inside Coq; compared after EVERY call on
-        raise/no-raise and on the whole object graph (children, _wires, port lists, source, sinks; identities -> creation indices).
+        conflict => raise, every raising call leaves the state untouched, earlier item stays, every wire stays registered,
+        checkIntegrity raises iff a visited in/out port is undriven).
+Tie:    operation sequences with faults (directed + random; thorough: all pairs of a 48-call alphabet) are executed on the REAL classes
+        (py4hw.Logic subclasses, Wire, addIn/addOut/addInOut, rename/reparent/reparentAndRename) and on the model inside Coq; compared
+        after EVERY call on raise/no-raise and on the whole object graph (children, _wires, port lists, source, sinks; identities ->
+        creation indices).
 Spec:   the declarative predicates of Spec/C11.v are evaluated in Coq on the recorded REAL states (impl vs spec).
 Integrity: every block of every final state, plus library blocks at several widths with single faults (one driver missing,
-        one source cleared, one duplicated driver): real checkIntegrity verdict vs model verdict vs spec verdict."""
+        one source cleared, one duplicated driver): real checkIntegrity verdict vs model verdict vs spec verdict.
+Repaired defects F1/F2 (known_findings/C11.json, status fixed): their witnesses are replayed on every run; a regression is a VIOLATION."""
 import random, time
 import common
 from common import quiet
@@ -15,8 +18,7 @@ from props import c11_world as cw
 PRE = ('From Coq Require Import ZArith List Bool.\nFrom V Require Import Model.Build Spec.C11 Model.BuildCheck.\n'
        'Import ListNotations.\nOpen Scope Z_scope.\n')
 BITS = ['single_driver', 'unique_children', 'unique_wires', 'children_stay', 'drivers_stay', 'wires_stay',
-        'conflict_must_raise', 'sinks_exact']
-F1_BITS = (1 << 5) | (1 << 6)
+        'conflict_must_raise', 'sinks_exact', 'raising_call_leaves_state_untouched', 'every_wire_registered']
 
 
 def bit_names(b): return [n for i, n in enumerate(BITS) if b >> i & 1]
@@ -55,11 +57,6 @@ def judge_sequence(ctx, V, tag, ops, rec, W, res):
     ops_j = [list(o) for o in ops]
     # ---- impl vs spec on every recorded real step
     for (i, bits, registered) in scan:
-        if not registered and (bits & ~F1_BITS) == 0 and known(ctx, 'F1-failed-rename-leaves-zombie'):
-            ctx.known_finding('F1-failed-rename-leaves-zombie',
-                              'F1 Wire.rename/reparent on a wire whose earlier rename/reparent raised evicts or replaces another wire (clauses %s)'
-                              % ','.join(bit_names(bits)))
-            continue
         V.spec_fail.append({'what': 'the real construction API violates the declarative well-formedness / conflict rule',
                             'sequence': tag, 'failing_clauses': bit_names(bits), 'at_op_index': i, 'op': ops_j[i],
                             'raised': bool(rec[i][0]), 'exception': rec[i][2], 'ops': ops_j[:i + 1],
@@ -83,14 +80,11 @@ def judge_sequence(ctx, V, tag, ops, rec, W, res):
 
 def judge_integrity(ctx, V, where, real, txt, mv, spec_bad, stray):
     if real != bool(spec_bad):
-        if real and not spec_bad and stray and known(ctx, 'F2-checkPort-ignores-inOutPorts'):
-            ctx.known_finding('F2-checkPort-ignores-inOutPorts',
-                              'F2 checkIntegrity raises "not port of parent" for an in-port whose wire is driven by an InOutPort (the wire HAS a source)')
-        else:
-            d = dict(where)
-            d.update({'what': 'checkIntegrity verdict differs from "some visited port is attached to an undriven wire"',
-                      'impl_raises': real, 'impl_exception': txt, 'spec_says_undriven_port_exists': bool(spec_bad)})
-            V.spec_fail.append(d)
+        d = dict(where)
+        d.update({'what': 'checkIntegrity verdict differs from "some visited (in/out) port is attached to an undriven wire"',
+                  'impl_raises': real, 'impl_exception': txt, 'spec_says_undriven_port_exists': bool(spec_bad),
+                  'source_port_in_no_port_list_of_its_block': bool(stray)})
+        V.spec_fail.append(d)
     if (1 if real else 0) != mv:
         d = dict(where)
         d.update({'what': 'model checkIntegrity and real checkIntegrity disagree', 'impl_raises': real, 'impl_exception': txt, 'model_verdict(0 ok,1 raise,2 fuel)': mv})
@@ -258,19 +252,30 @@ def run_library(ctx, V, widths_per_block, all_inputs):
     if meta: ctx.sample({'library_case': meta[len(meta) // 2][0], 'impl_raises': meta[len(meta) // 2][1]})
 
 
-# ---------------------------------------------------------------- the refutation witnesses, on the real classes
-def replay_refutations(ctx):
+# ---------------------------------------------------------------- witnesses of the two repaired defects (F1, F2), on the real classes
+def replay_witnesses(ctx, V):
+    """known_findings/C11.json entries are 'fixed': if a witness reproduces again it is a VIOLATION"""
     out = {}
-    W, rec = cw.replay_ops([('NewLogic', None, 0, False), ('NewWire', 0, 1, 1), ('NewWire', 0, 2, 1), ('Rename', 0, 2), ('Rename', 0, 3)])
+    ops = [('NewLogic', None, 0, False), ('NewWire', 0, 1, 1), ('NewWire', 0, 2, 1), ('Rename', 0, 2), ('Rename', 0, 3)]
+    W, rec = cw.replay_ops(ops)
     hw = W.objs[0]
-    out['F1_evicts'] = bool(rec[3][0]) and not rec[4][0] and 'n2' not in hw._wires and W.wires[1].name == 'n2'
-    W, rec = cw.replay_ops([('NewLogic', None, 0, False), ('NewWire', 0, 1, 1), ('NewWire', 0, 2, 1), ('Rename', 0, 2), ('Rename', 0, 2)])
-    out['F1_replaces'] = bool(rec[3][0]) and not rec[4][0] and W.objs[0]._wires.get('n2') is W.wires[0]
-    W, rec = cw.replay_ops([('NewLogic', None, 0, False), ('NewWire', 0, 0, 1), ('NewLogic', 0, 1, True), ('NewLogic', 0, 2, True),
-                            ('AddInOut', 1, 0, 0), ('AddIn', 2, 0, 0)])
-    real, txt = cw.real_integrity(W.py4hw, W.objs[0])
-    out['F2_inout'] = real and W.wires[0].getSource() is not None
-    ctx.notes['refutation_witnesses_reproduced_on_real_code'] = out
+    out['F1_failed_rename_then_rename_evicts_other_wire'] = 'n2' not in hw._wires or hw._wires['n2'] is not W.wires[1]
+    out['F1_failed_rename_changes_state'] = (not rec[3][0]) or rec[3][1] != rec[2][1]
+    ops2 = ops[:4] + [('Rename', 0, 2)]
+    W2, rec2 = cw.replay_ops(ops2)
+    out['F1_second_rename_replaces_other_wire'] = (not rec2[4][0]) or W2.objs[0]._wires.get('n2') is not W2.wires[1]
+    ops3 = [('NewLogic', None, 0, False), ('NewWire', 0, 0, 1), ('NewLogic', 0, 1, True), ('NewLogic', 0, 2, True),
+            ('AddInOut', 1, 0, 0), ('AddIn', 2, 0, 0)]
+    W3, rec3 = cw.replay_ops(ops3)
+    real, txt = cw.real_integrity(W3.py4hw, W3.objs[0])
+    out['F2_inout_driven_wire_rejected'] = bool(real)
+    ctx.notes['repaired_defects_reproduce_again'] = out
+    for key, o in (('F1_failed_rename_then_rename_evicts_other_wire', ops), ('F1_failed_rename_changes_state', ops[:4]),
+                   ('F1_second_rename_replaces_other_wire', ops2), ('F2_inout_driven_wire_rejected', ops3)):
+        if out[key]:
+            V.spec_fail.append({'what': 'regression of a repaired defect: ' + key, 'ops': [list(x) for x in o],
+                                'root_object_index': 0, 'impl_exception': txt if key.startswith('F2') else ''})
+    for o in (ops, ops2, ops3): ctx.count(('witness', tuple(o)))
     return out
 
 
@@ -284,11 +289,10 @@ def run(ctx):
     V = Verdicts()
     n_random, n_ops = (64, 30) if ctx.quick else (900, 36)
     import traceback
-    wit = {'F1_evicts': False, 'F1_replaces': False, 'F2_inout': False}
     for phase, fn in (('sequences', lambda: run_sequences(ctx, V, n_random, n_ops)),
                       ('exhaustive pairs', (lambda: None) if ctx.quick else (lambda: run_pairs(ctx, V))),
                       ('library', lambda: run_library(ctx, V, widths_per_block=3 if ctx.quick else 6, all_inputs=not ctx.quick)),
-                      ('refutation witnesses', lambda: wit.update(replay_refutations(ctx)))):
+                      ('witnesses of repaired defects', lambda: replay_witnesses(ctx, V))):
         try:
             fn()
         except Exception as ex:          # a crash of one phase must not hide what the others found
@@ -303,13 +307,6 @@ def run(ctx):
             ctx.violation(dict(v, note='correspondence broken; the declarative clauses hold on every real state seen'), found_input=False)
         if not r['ok']:
             ctx.violation({'what': 'proof obligation no longer checks', 'theorem': r.get('lemma'), 'file': r.get('file'), 'coq_error': r.get('msg')}, found_input=False)
-        if not V.tie_breaks:
-            if not (wit['F1_evicts'] and wit['F1_replaces']) and known(ctx, 'F1-failed-rename-leaves-zombie'):
-                ctx.notes['F1'] = 'witness of the _refuted theorems no longer reproduces on the real code'
-            if wit['F1_evicts'] or wit['F1_replaces']:
-                ctx.known_finding('F1-failed-rename-leaves-zombie', 'F1 Wire.rename/reparent on a wire whose earlier rename/reparent raised evicts or replaces another wire (witness of C11_wires_stay_refuted / C11_conflict_raises_refuted replayed)')
-            if wit['F2_inout']:
-                ctx.known_finding('F2-checkPort-ignores-inOutPorts', 'F2 checkIntegrity raises "not port of parent" for an in-port whose wire is driven by an InOutPort (the wire HAS a source)')
     ctx.assumptions += ['Model/Build.v mirrors Logic.__init__, Wire.__init__, appendWire, setSource/addSource/addSink, In/Out/InOutPort constructors, '
                         'rename/reparent/reparentAndRename and debug.checkIntegrity/checkPort (checked on every run by the per-call differential, not verified)',
                         'ordinary Wire only (BidirWire/FakeWire are outside the property); port.wire is never reassigned (Logic.reconnectIn is not modelled)',
